@@ -780,6 +780,9 @@ def gen_src(unit_name):
 
 GEN_SRC = {n: gen_src(n) for n in ("SrcKmpLps", "SrcShiftAndMasks", "SrcHorspoolNew", "SrcFenwick", "SrcBitEnc", "SrcBwt", "SrcPrescan")}
 
+# genpm: search loops of the exact matchers (C08) and distance functions (C09)
+GEN_SRC.update({n: gen_src(n) for n in ("SrcShiftAndNext",)})
+
 
 # ------------------------------------------------------------------------------------------ theorem modules built here
 
@@ -832,6 +835,9 @@ EXTRACTORS = {
     "C08": [GEN_SRC["SrcKmpLps"], GEN_SRC["SrcShiftAndMasks"], GEN_SRC["SrcHorspoolNew"]],
     "C18": [GEN_SRC["SrcFenwick"], GEN_SRC["SrcBitEnc"]],
 }
+
+# genpm: `Matches::next` of the exact matchers; Thm/C08.lean imports RbV.Thm.GenSrc*Next and restates the theorems
+EXTRACTORS["C08"] = EXTRACTORS["C08"] + [GEN_SRC[n] for n in ("SrcShiftAndNext",)]
 
 
 def main():
